@@ -45,6 +45,9 @@ pub enum DictSpec {
     /// a trained dictionary whose three stored repeat offsets are replaced (trainers always store 1, 4, 8, which
     /// equal the format's defaults and would hide a decoder that ignores them) and whose id is changed
     TrainedRep { seed: u64, size: usize, rep: [u32; 3] },
+    /// `base` with its content rotated by half its length: same id, same tables, same length, same bytes at other
+    /// places (a dictionary re-registered under an id the decoder already used); material = the rotated content
+    Rotated { base: Box<DictSpec> },
 }
 
 pub struct DictData {
@@ -110,6 +113,16 @@ pub fn load_dict(spec: &DictSpec) -> Result<Arc<DictData>, HarnessError> {
                 }
             }
             DictData { raw, id, material }
+        }
+        DictSpec::Rotated { base } => {
+            let b = load_dict(base)?;
+            let parsed = ruzstd::decoding::Dictionary::decode_dict(&b.raw).map_err(|e| HarnessError(format!("base dictionary does not parse: {e:?}")))?;
+            let n = parsed.dict_content.len();
+            let mut raw = b.raw.clone();
+            let at = raw.len() - n;
+            raw[at..].rotate_left(n / 2);
+            let material = raw[at..].to_vec();
+            DictData { raw, id: b.id, material }
         }
         DictSpec::TrainedRep { seed, size, rep } => {
             let base = load_dict(&DictSpec::Trained { seed: *seed, size: *size })?;
